@@ -270,6 +270,10 @@ def run_group(g, tier, seed, use_cache=True):
             if not mc['ok']:
                 raise ToolError('model checking of MC_WalkAsync failed:\n%s' % mc.get('tail', ''))
             mcs['MC_WalkAsync'] = mc
+            live = run_mc('MC_WalkAsync', 'MC_WalkAsync_live')          # liveness: the stream terminates under fair polling
+            if not live['ok']:
+                raise ToolError('liveness checking of MC_WalkAsync_live failed:\n%s' % live.get('tail', ''))
+            mcs['MC_WalkAsync_live'] = live
             mod, cfg = LTS_INSTANCES['deep']
             run_mc(mod, cfg)
             s = harness(['awalk', '--lts', ensure_lts(mod, cfg + '_emit'), '--cfgs', r['cfgs'], '--seed', seed * 1000 + i, '--trees', r['trees'], '--dense', r['dense'],
@@ -313,6 +317,11 @@ def run_group(g, tier, seed, use_cache=True):
             if not mc['ok']:
                 raise ToolError('model checking of %s failed:\n%s' % (mname, mc.get('tail', '')))
             mcs[mname] = mc
+            if r['prop'] == 'C17':
+                live = run_mc('MC_Conc17', 'MC_Conc17_live', workers=8)   # liveness of the model: every program finishes
+                if not live['ok']:
+                    raise ToolError('liveness checking of MC_Conc17_live failed:\n%s' % live.get('tail', ''))
+                mcs['MC_Conc17_live'] = live
             s = harness(['conc', '--prop', r['prop'], '--tier', tier, '--seed', seed, '--out', out, '--threads', 12], timeout=7200)
         elif r['kind'] == 'join':
             mc = run_mc(r['inst'], r['inst'])
